@@ -259,6 +259,26 @@ def h_caps_roundtrip(eng, n=2):
     eng.prove(len(c3) == len(caps) and And(*[a == b for a, b in zip(c3, caps)]), "want capabilities")
 
 
+def h_caps_inner_blank(eng):
+    """capability values may carry any byte except SP, NUL and LF inside (e.g. agent=x<TAB>(patched)): entries are
+    separated by single spaces only, so such a value survives the round trip as one entry"""
+    ref = b"refs/heads/m"
+    sha = b"1" * 40
+    mid = eng.byte("mid")
+    eng.assume(And(mid != 32, mid != 0, mid != 10))
+    a, z = eng.byte("first"), eng.byte("last")
+    for x in (a, z):
+        eng.assume(And(x > 32, x != 127))
+    cap = SymBytes([a, mid, z])
+    caps = [b"side-band-64k", cap, b"ofs-delta"]
+    line = PR.format_ref_line(ref, sha, caps)
+    text, got = PR.extract_capabilities(line)
+    eng.prove(text == sha + b" " + ref, "ref text survives")
+    eng.prove(len(got) == 3, "three capabilities come back as three entries")
+    if len(got) == 3:
+        eng.prove(And(got[0] == caps[0], got[1] == cap, got[2] == caps[2]), "each capability survives unchanged")
+
+
 def h_cmd_pkt(eng):
     cmd = eng.bytes_upto("cmd", 3, 1)
     args = [eng.bytes_upto(f"a{i}", 2) for i in range(2)]
@@ -331,6 +351,10 @@ def checks(tier):
                         enc + "format_capability_line"],
                bounds="ref 1..3 bytes, sha 2 bytes, 1..2 capabilities of 1..2 bytes, every byte value > 0x20 except DEL",
                outside="longer fields; fields containing ASCII control characters or blanks (not valid protocol tokens)", tiers=q),
+        KCheck("C19f.caps_inner_blank", h_caps_inner_blank, encoded=["dulwich.protocol.format_ref_line", "dulwich.protocol.extract_capabilities"],
+               bounds="a 3-byte capability between two ordinary ones whose middle byte is any byte except SP, NUL, LF (TAB, CR, "
+                      "VT, FF and non-ASCII included) and whose outer bytes are printable non-blank",
+               outside="blanks at the ends of a capability (stripped by design)", tiers=q),
         KCheck("C19f.cmd_pkt", h_cmd_pkt, encoded=[enc + "format_cmd_pkt", enc + "parse_cmd_pkt"],
                bounds="cmd 1..3 bytes, two args of 0..2 bytes, every byte value > 0x20 except DEL", outside="longer", tiers=q),
         KCheck("C19g.sideband", h_sideband, parts=[{"n": n} for n in (0, 1, 3)],
